@@ -8,6 +8,7 @@ Value conventions
   iterators -> subclasses of It (pull protocol)
 """
 import re
+import os
 from . import smt as z3
 from .core import *
 
@@ -461,6 +462,14 @@ def install(P, max_split=4):
             hit = P.find_from_impl(ctx, v, c)
             if hit is not None:
                 return P.call(ctx, hit, [c.args[0]])
+            if isinstance(v, Adt):
+                # impl<T: ?Sized + AsRef<OsStr>> From<&T> for PathBuf / OsString
+                m = re.search(r" as (?:std::convert::|core::convert::)?Into<(.+)>>::into", c.callee or "")
+                dst = short_ty(strip_generics(c.resolve(m.group(1)))) if m else short_ty(strip_generics(c.resolve(c.selfty)))
+                if dst in ("PathBuf", "OsString"):
+                    name = P.impl_index.get((v.ty, "AsRef", "as_ref"))
+                    if name:
+                        return clone_val(deref(P.call(ctx, name, [c.args[0] if isinstance(c.args[0], Ref) else Ref(Box(v))])))
         if isinstance(v, Adt) and not v.variant and len(v.fields) == 1 and is_str(v.fields[0]) and c.key not in ("From::from", "Into::into"):
             if c.key in ("ToString::to_string",):
                 return display(ctx, v)
@@ -472,7 +481,17 @@ def install(P, max_split=4):
         dst = short_ty(re.sub(r"<.*", "", strip_generics(c.selfty or "")))
         if c.key == "Into::into":
             dst = None
+            m = re.search(r" as (?:std::convert::|core::convert::)?Into<(.+)>>::into", c.callee or "")
+            if m:
+                dst = short_ty(re.sub(r"<.*", "", strip_generics(c.resolve(m.group(1)))))
         src = type_tag(v)
+        if src is None and is_str(v) and c.selfty:
+            # String / PathBuf / &str share one model value: the static type decides which From impl applies
+            src = short_ty(re.sub(r"<.*", "", strip_generics(c.resolve(c.selfty).lstrip("&").replace("mut ", "").strip())))
+            if os.environ.get("VERIF_TRACE_FROM"):
+                print("FROM?", c.callee, c.selfty, c.resolve(c.selfty), src, dst, c.tyenv)
+            if dst is None or (src, dst) not in P.from_index:
+                return None
         if src is None:
             return None
         for (s, d), name in P.from_index.items():
